@@ -1255,15 +1255,16 @@ def _record_self_for_consistency(ex, env):
 
 
 def _named_upto(ex, mapping, upto):
-    """the mapping holds, under its name, every stored member of a position below `upto` -- and nothing else"""
+    """the mapping holds, under its name, every stored member of a position below `upto` that is a value (not the schema
+    placeholder a read leaves in an unset slot) -- and nothing else"""
     if not (isinstance(mapping, Obj) and 'present' in mapping.fields):
         return False
     p, ids = mapping.fields['present'], mapping.fields['ids']
     upto = toint(upto)
-    return And(ForAll([_k], Implies(And(_k >= 0, _k < upto, Select(LID0, _k) != NOV),
+    return And(ForAll([_k], Implies(And(_k >= 0, _k < upto, good(Select(LID0, _k))),
                                     And(Select(p, _name_of(_k)), Select(ids, _name_of(_k)) == Select(LID0, _k)))),
                ForAll([_i], Implies(Select(p, _i), And(NAME_INV(_i) >= 0, NAME_INV(_i) < upto, _name_of(NAME_INV(_i)) == _i,
-                                                       Select(LID0, NAME_INV(_i)) != NOV,
+                                                       good(Select(LID0, NAME_INV(_i))),
                                                        Select(ids, _i) == Select(LID0, NAME_INV(_i))))))
 
 
